@@ -740,6 +740,9 @@ func ParseContractText(text, path, pkg string, assumed bool) (*ContractFile, err
 			if w2 != "call" && w2 != "return" && w2 != "store" {
 				return nil, fail(fmt.Errorf("expected 'on call|return|store'"))
 			}
+			if w2 == "return" {
+				r2 = "_return " + r2
+			}
 			c, err := parseOnCall(r2, cur.Tags)
 			if err != nil {
 				return nil, fail(err)
@@ -805,12 +808,27 @@ func ParseContractText(text, path, pkg string, assumed bool) (*ContractFile, err
 				}
 				c.Loop = n
 				switch toks[1] {
+				case "modifies":
+					c.Kind = "loopmod"
+					for _, part := range splitTop(toks[2], ',') {
+						part = strings.TrimSpace(part)
+						if part == "" {
+							continue
+						}
+						e, err := ParseExpr(part)
+						if err != nil {
+							return nil, fail(err)
+						}
+						c.Locs = append(c.Locs, e)
+					}
+					cur.Clauses = append(cur.Clauses, c)
+					continue
 				case "invariant":
 					c.Kind = "loopinv"
 				case "decreases":
 					c.Kind = "loopdec"
 				default:
-					return nil, fail(fmt.Errorf("loop N invariant|decreases expr"))
+					return nil, fail(fmt.Errorf("loop N invariant|decreases|modifies expr"))
 				}
 				e, err := ParseExpr(toks[2])
 				if err != nil {
